@@ -1945,6 +1945,7 @@ fn corpus_hdrs() -> Vec<MHdr> {
 pub fn run(ctx: &mut Ctx) {
     if let Some(case) = ctx.replay_only.clone() {
         if super::c06_file::replay(ctx, &case) { return; }
+        if super::c06_lazy::replay(ctx, &case) { return; }
         let sub: u64 = case.get(1).and_then(|s| s.parse().ok()).unwrap_or(0);
         let tag = format!("{} {}", case.first().cloned().unwrap_or_default(), sub);
         match case.first().map(|s| s.as_str()) {
@@ -2075,4 +2076,5 @@ pub fn run(ctx: &mut Ctx) {
     ctx.sample(|| "c06 rec r,737130 n7230;0;0;1;60;,4M;0;5;-3;41434754;1e1f2021;|4e48.C.1 t".into());
     ctx.sample(|| "c06 hparse 40484409564e3a312e360a40535109534e3a737130094c4e3a380a".into());
     super::c06_file::run(ctx);
+    super::c06_lazy::run(ctx);
 }
